@@ -51,6 +51,8 @@ def build_harness(kind):
         cmd = ["cargo", "build", "--offline", "--quiet"] + (["--profile", "shipping"] if ship else ["--release"])
         if base == "bare":        # the crate without its `svg` / `image` features: what a user without a renderer compiles
             cmd += ["--no-default-features"]
+        if base == "diff":        # core + differential input selection against the frozen reference copy in ref/
+            cmd += ["--features", "diffsel"]
         if base == "svgonly":     # the crate with `svg` but without `image`
             cmd += ["--no-default-features", "--features", "svg"]
         if base == "hooked":
@@ -82,6 +84,11 @@ def src_hash():
             if fn.endswith(".rs"):
                 h.update(fn.encode()); h.update(open(os.path.join(dp, fn), "rb").read())
     h.update(open(os.path.join(REPO, "Cargo.toml"), "rb").read())
+    for dp, _, fns in sorted(os.walk(os.path.join(ROOT, "ref", "src"))):
+        for fn in sorted(fns):
+            h.update(open(os.path.join(dp, fn), "rb").read())
+    for fn in ("scen_diff.rs",):
+        h.update(open(os.path.join(HARNESS, "src", fn), "rb").read())
     for fn in sorted(os.listdir(os.path.join(FUZZ, "fuzz_targets"))):
         h.update(open(os.path.join(FUZZ, "fuzz_targets", fn), "rb").read())
     return h.hexdigest()[:20]
